@@ -25,7 +25,7 @@ type gen struct {
 }
 
 var allLeafKinds = []string{"base", "base", "plain", "retry", "fb", "retryfb", "func", "func", "func", "zst"}
-var payKinds = []string{"int", "str", "float", "map", "slice", "ptr", "struct", "nil", "nilptr", "nilmap", "nilslice"}
+var payKinds = []string{"int", "str", "float", "map", "slice", "ptr", "struct", "nil", "nilptr", "nilmap", "nilslice", "errpay"}
 var failKinds = []string{"sentinel", "wrapped", "custom", "wrapcustom", "ctxerr"}
 var actionAlphabet = []string{"default", "", "a", "ab", "b", "Default"} // "Default" differs from the default action by case only
 
@@ -1127,6 +1127,9 @@ func genC18(prop, tier string, r *rand.Rand) *Scn {
 		g.sc.Root = x
 	case 1: // a flow used as a node around it
 		inner := &NodeSpec{ID: len(g.sc.Nodes), Kind: "flow", Start: x}
+		if r.IntN(2) == 0 { // ... which ends through an explicit nil connection
+			inner.Conns = []Conn{{From: x, Action: normAction(action), To: -1}}
+		}
 		g.sc.Nodes = append(g.sc.Nodes, inner)
 		g.sc.Root = inner.ID
 		x = inner.ID
@@ -1274,6 +1277,15 @@ func genC19(prop, tier string, r *rand.Rand) *Scn {
 			}
 		}
 		g.timing(n)
+		if n.style(1) == 'A' && cfg.Conc <= 0 && n.configRun(1).Conc <= 0 && r.IntN(4) == 0 {
+			// error-Result items through an Any-style exec function (it sees nil):
+			// option and builder form of the function must treat them alike
+			for i := range vs.Items {
+				if r.IntN(3) == 0 {
+					vs.Items[i] = Item{Pay: "erritem", Exec: []Outcome{{Pay: "int"}}}
+				}
+			}
+		}
 		if cfg.Conc >= 2 && !cfg.Stop && r.IntN(3) == 0 {
 			for i := range vs.Items {
 				for a := range vs.Items[i].Exec {
@@ -1295,6 +1307,9 @@ func genC19(prop, tier string, r *rand.Rand) *Scn {
 		barrier2 := r.IntN(2) == 0 // all items or none: a barrier needs every item to start
 		if isBatch {
 			for i := range v2.Items {
+				if v2.Items[i].Pay == "erritem" && n.style(1) == 'A' {
+					continue // attributed to its item by call order: one successful call
+				}
 				v2.Items[i].Exec = g.execScript(cfg2.Retries, false)
 				if cfg2.Conc >= 2 && !cfg2.Stop && barrier2 {
 					// the configured concurrency must be usable: executions park until min(c, n) have started
@@ -1435,6 +1450,7 @@ func genC10(prop, tier string, r *rand.Rand) *Scn {
 		g := newGen(prop, tier, r)
 		faultfree(g, r)
 		g.sleepP = 0.05
+		g.selfReach = true
 		depth := 2 + r.IntN(3)
 		g.sc.Root = g.tree(2+r.IntN(6), depth, 0.1)
 		g.sc.Runs = 1 + r.IntN(2)
